@@ -163,15 +163,25 @@ Record dcase := {
   dc_single : bool;
   dc_revs : list rev;
   dc_seen : list (N * list note);
+  dc_dropped : list N;              (* consumers that went away during the case: what they saw until then is a prefix of their session *)
   dc_wevs : list wev;
   dc_frames : list frame;
   dc_check_frames : bool;           (* false: the socket was slow, the write side is checked by the oracle only *)
   dc_drained : bool                 (* the remote read everything in the end and never sent unlinked *)
 }.
 
+Fixpoint notes_prefix (a b : list note) : bool :=       (* a is a prefix of b *)
+  match a, b with
+  | [], _ => true
+  | x :: a', y :: b' => note_eqb x y && notes_prefix a' b'
+  | _, _ => false
+  end.
+Definition gone (c : dcase) (k : N) : bool := existsb (N.eqb k) (dc_dropped c).
+
 Definition dl_case_ok (c : dcase) : bool :=
   let (_, o) := rrun (dc_single c) rstate0 (dc_revs c) in
-  forallb (fun cs => notes_eqb (seen_by (fst cs) o) (snd cs)) (dc_seen c)
+  forallb (fun cs => if gone c (fst cs) then notes_prefix (snd cs) (seen_by (fst cs) o)
+                     else notes_eqb (seen_by (fst cs) o) (snd cs)) (dc_seen c)
   && (negb (dc_check_frames c) || frames_eqb (w_sent (wrun (dc_wevs c))) (dc_frames c)).
 
 (* oracle on the implementation's outputs alone *)
@@ -295,7 +305,9 @@ Definition dl_oracle_ok (c : dcase) : bool :=
   && (negb (dc_drained c) || syncs_ok (dc_wevs c) (dc_frames c))
   (* every consumer gets the session it is owed *)
   && forallb (fun cs => session_ok (snd cs)
-                        && notes_eqb (session (dc_single c) (fst cs) (sync_flag (fst cs) (dc_revs c)) sess0 (dc_revs c)) (snd cs))
+                        && (if gone c (fst cs)
+                            then notes_prefix (snd cs) (session (dc_single c) (fst cs) (sync_flag (fst cs) (dc_revs c)) sess0 (dc_revs c))
+                            else notes_eqb (session (dc_single c) (fst cs) (sync_flag (fst cs) (dc_revs c)) sess0 (dc_revs c)) (snd cs)))
              (dc_seen c).
 
 Definition dl_corr_bad (cs : list (N * dcase)) : list N := map fst (filter (fun c => negb (dl_case_ok (snd c))) cs).
